@@ -77,7 +77,8 @@ impl Executor for StatefulExecutor {
         let timeout_at = if timeout_duration.is_zero() {
             None
         } else {
-            Some(Instant::now().add(timeout_duration))
+            // (a limit beyond what an instant can express is no limit)
+            Instant::now().checked_add(timeout_duration)
         };
         let timeout_left = || timeout_at.map(|at| at.duration_since(Instant::now()));
         let runner_gen = &self.0;
